@@ -1933,6 +1933,81 @@ fn check_comp(c: &CompCase, obs: &mut Obs) -> Check {
 
 // ================================================================== run / replay
 
+// ================================================================== Distrib::samples as an Iterator
+
+/// `samples(rng)` is an iterator of successive `sample(rng)` calls: however it is advanced (`next`, `nth`, `skip`,
+/// `step_by`, `take`), the i-th item equals the i-th sequential sample from an equally seeded generator, and afterwards
+/// the generator has advanced by exactly the number of samples consumed.
+#[derive(Clone, Debug, Serialize, Deserialize)]
+struct IterCase {
+    state: u64,
+    /// 0 Uniform<f32>(-3..5), 1 Uniform<i32>(-7..9), 2 Bernoulli(0.4), 3 UnitCircle, 4 (Uniform<i32>, Bernoulli)
+    dist: u8,
+    /// 0 skip(k) then take(m), 1 step_by(k+1) then take(m), 2 repeated nth(k), 3 take(m) only
+    mode: u8,
+    k: u8,
+    m: u8,
+}
+
+fn iter_case() -> BoxedStrategy<IterCase> {
+    (any::<u64>().prop_map(nonzero), 0u8..5, 0u8..4, 0u8..6, 1u8..8).prop_map(|(state, dist, mode, k, m)| IterCase { state, dist, mode, k, m }).boxed()
+}
+
+fn iter_collect<D: Distrib>(d: &D, c: &IterCase, show: impl Fn(&D::Sample) -> String) -> Result<(), Fail> {
+    let (k, m) = (c.k as usize, c.m as usize);
+    // sequential reference: enough samples for every mode
+    let need = match c.mode {
+        0 => k + m,
+        1 => (m - 1) * (k + 1) + 1,
+        2 => m * (k + 1),
+        _ => m,
+    };
+    let mut g0 = Xorshift64(c.state);
+    let seq: Vec<String> = (0..need).map(|_| show(&d.sample(&mut g0))).collect();
+    let mut g1 = Xorshift64(c.state);
+    let got: Vec<String> = match catch(|| match c.mode {
+        0 => d.samples(&mut g1).skip(k).take(m).map(|x| show(&x)).collect::<Vec<_>>(),
+        1 => d.samples(&mut g1).step_by(k + 1).take(m).map(|x| show(&x)).collect(),
+        2 => {
+            let mut it = d.samples(&mut g1);
+            (0..m).map(|_| show(&it.nth(k).expect("samples() is infinite"))).collect()
+        }
+        _ => d.samples(&mut g1).take(m).map(|x| show(&x)).collect(),
+    }) {
+        Ok(v) => v,
+        Err(p) => return Err(Fail::new("samples-iterator-panics", format!("samples() panicked on state {:#018x}: {p}", c.state))),
+    };
+    let want: Vec<String> = match c.mode {
+        0 => seq[k..k + m].to_vec(),
+        1 => seq.iter().step_by(k + 1).take(m).cloned().collect(),
+        2 => seq.iter().skip(k).step_by(k + 1).take(m).cloned().collect(),
+        _ => seq[..m].to_vec(),
+    };
+    let how = ["skip(k).take(m)", "step_by(k+1).take(m)", "repeated nth(k)", "take(m)"][c.mode as usize];
+    if got != want {
+        return Err(Fail::new("samples-iterator-differs-from-sequential", format!("state {:#018x}, {how} with k = {k}, m = {m}: the iterator yields {got:?}, sequential sampling gives {want:?}", c.state)));
+    }
+    // the generator advanced by exactly the samples consumed (step_by/skip may not over-consume beyond the last item)
+    if g1.0 != g0.0 {
+        return Err(Fail::new("samples-iterator-consumes-differently", format!("state {:#018x}, {how} with k = {k}, m = {m}: generator state afterwards {:#018x}, after {need} sequential samples {:#018x}", c.state, g1.0, g0.0)));
+    }
+    Ok(())
+}
+
+fn check_iter(c: &IterCase, obs: &mut Obs) -> Check {
+    ensure!(c.state != 0 && c.m >= 1 && c.mode < 4, "bad-case", "parameters");
+    match c.dist {
+        0 => iter_collect(&Uniform(-3.0f32..5.0), c, |x| format!("{:08x}", x.to_bits()))?,
+        1 => iter_collect(&Uniform(-7i32..9), c, |x| x.to_string())?,
+        2 => iter_collect(&Bernoulli(0.4), c, |x| x.to_string())?,
+        3 => iter_collect(&UnitCircle, c, |v| format!("{:08x},{:08x}", v.0[0].to_bits(), v.0[1].to_bits()))?,
+        _ => iter_collect(&(Uniform(-7i32..9), Bernoulli(0.5)), c, |x| format!("{:?}", x))?,
+    }
+    obs.class(["iter:skip+take", "iter:step_by+take", "iter:nth", "iter:take"][c.mode as usize]);
+    obs.nontrivial(hash_of(&(c.state, c.dist, c.mode, c.k, c.m)));
+    Ok(())
+}
+
 pub fn run(cx: &mut Ctx) {
     cx.assume("float ranges have lo < hi, both finite, and a finite f32 width hi-lo (an overflowing width is outside the family the property names)");
     cx.assume("integer ranges have 1 <= hi-lo <= i32::MAX ('whenever the range width is representable'); wider ones are run without any assertion and counted as excluded");
@@ -1965,6 +2040,8 @@ pub fn run(cx: &mut Ctx) {
     run_rejection_runs(cx, &info);
     let n = cx.n(300_000, 10_000_000);
     cx.prop_check("composite", n, comp_case, |c, obs| check_comp(c, obs));
+    let n = cx.n(200_000, 5_000_000);
+    cx.prop_check("samples-iterator", n, iter_case, |c, obs| check_iter(c, obs));
 }
 
 pub fn replay(sub: &str, case: &Value) -> Check {
@@ -1980,6 +2057,7 @@ pub fn replay(sub: &str, case: &Value) -> Check {
         "uniform-i32" => check_int(&de::<IntCase>(case)?, &mut obs),
         "unit-shapes" | "unit-zero-draw" | "rejection-runs" => check_shape(&de::<ShapeCase>(case)?, &mut obs),
         "composite" => check_comp(&de::<CompCase>(case)?, &mut obs),
+        "samples-iterator" => check_iter(&de::<IterCase>(case)?, &mut obs),
         _ => Err(Fail::new("bad-replay", format!("unknown subcheck {sub}"))),
     }
 }
